@@ -76,6 +76,7 @@ func vfSnapRestartMatches(s *Snapshotter, pfx string) {
 // VfC10_Step: one recording step from an arbitrary compacted state, then restart.
 //
 //vf:override os.OpenFile = github.com/hashicorp/serf/serf.vfOpenFile
+//vf:override os.Stat = github.com/hashicorp/serf/serf.vfStat
 //vf:override os.Remove = github.com/hashicorp/serf/serf.vfRemove
 //vf:override os.Rename = github.com/hashicorp/serf/serf.vfRename
 //vf:override (*os.File).Write = github.com/hashicorp/serf/serf.vfFileWrite
